@@ -163,6 +163,28 @@ def run_refusal_oracle(outcome, tier, seed):
                 c["sched"] = sched
             plans.append(("second_doc", "", fmt, len(reqs), {"a": 1}))
             reqs.append({"id": len(reqs), "to": "toml", "calls": [c]})
+    # a second input after a first one that was refused (for its root, a null, an integer too large, a key that is no string):
+    # it is still the second input of this output
+    firsts = [("json", b"[1,2]"), ("json", b'{"a":null}'), ("json", b'"s"'), ("json", b'{"a":{"b":[1,null]}}'), ("json", b'{"n":18446744073709551615}'),
+              ("yaml", b"- x\n"), ("yaml", b"a: ~\n"), ("yaml", b"? [1]\n: 2\n"), ("msgpack", b"\x81\x01\x02"), ("msgpack", b"\xc0"), ("msgpack", b"\x81\xa1b\xc4\x01x")]
+    for fmt, t in firsts:
+        for mode in ("slice", "reader"):
+            for second in ((b'{"b":2}', "json"), (b"b = 2\n", "toml"), (b"\x81\xa1b\x02", "msgpack")):
+                plans.append(("second_after_refused", "", fmt, len(reqs), {}))
+                reqs.append({"id": len(reqs), "to": "toml", "calls": [{"input": shared.hx(t), "from": fmt, "mode": mode, "sched": {"kind": "fixed", "n": 3}},
+                                                                     {"input": shared.hx(second[0]), "from": second[1], "mode": rng.choice(["slice", "reader"])}]})
+    # a TOML input of a little more than 2 MiB (the size at which detection from a reader is switched off; the format is
+    # named here), with a line boundary exactly at 2 MiB: every key comes out, from a slice and from a reader
+    big_lines = (2 << 20) // 16 + 2
+    big = b"".join(b"k%07d = %04d\n" % (i, i % 10000) for i in range(big_lines))
+    assert len(big) == 16 * big_lines
+    big_v = {"k%07d" % i: i % 10000 for i in range(big_lines)}
+    for mode, sched in (("slice", None), ("reader", {"kind": "fixed", "n": 65536}), ("reader", {"kind": "fixed", "n": 50001})):
+        c = {"input": shared.hx(big), "from": "toml", "mode": mode}
+        if sched:
+            c["sched"] = sched
+        plans.append(("accept", "", "toml", len(reqs), big_v))
+        reqs.append({"id": len(reqs), "to": "toml", "calls": [c]})
     resps = common.harness_batch(reqs)
 
     def readback(out, v, info):
@@ -186,6 +208,8 @@ def run_refusal_oracle(outcome, tier, seed):
         r = shared.session_result(resp)
         out = bytes.fromhex(r[2]) if r[2] not in ("-", "") else b""
         info = {"from": fmt, "to": "toml", "request": json.dumps(reqs[i])[:2500], "observed": [r[0], r[1]], "output_hex": r[2][:1000]}
+        if len(out) > (1 << 20):
+            info["request"] = info["request"][:300] + "... (a TOML document of %d lines `k%%07d = %%04d`, 16 bytes each)" % (len(v) if isinstance(v, dict) else 0)
         if r[0] == "crash":
             outcome.oracle_failures.append(dict(info, what="crash"))
             continue
@@ -206,6 +230,10 @@ def run_refusal_oracle(outcome, tier, seed):
                 outcome.oracle_failures.append(dict(info, what="a second input to a TOML output is not refused with nothing written"))
             else:
                 readback(out, v, info)
+        elif kind == "second_after_refused":
+            c0, c1 = resp["calls"][0], resp["calls"][1]
+            if c0.get("ok") or c1.get("ok") or MULTI not in c1.get("err", "") or out != b"":
+                outcome.oracle_failures.append(dict(info, what="a second input to a TOML output, after a first one that was refused, is not refused with nothing written"))
         elif kind == "second_doc":
             if r[0] != "err" or MULTI not in r[1]:
                 outcome.oracle_failures.append(dict(info, what="a second document in the same input is not refused"))
